@@ -670,6 +670,14 @@ func opAssignKey(w *World) *Op {
 	if ci == nil {
 		return nil
 	}
+	if w.Cfg.Profile == "keys" && w.Rnd.Intn(4) != 0 {
+		// concentrate on a few consumers whose ids are textual prefixes of one another / sort differently as strings and as
+		// length-prefixed keys (0, 1, 2, 10, 11), so that the same key is used, replaced and pruned on such pairs
+		focus := []string{"0", "1", "2", "10", "11"}
+		if f := w.Shadow.ByID[focus[w.Rnd.Intn(len(focus))]]; f != nil {
+			ci = f
+		}
+	}
 	v := w.randVal()
 	key := w.randKey(v)
 	w.Op("assign-key val%d -> %s key=%s", v.Idx, ci.ID, key.Name)
